@@ -14,6 +14,7 @@ Clauses(t) ==
 \* "... and whatever the verbosity": the fresh-interpreter run at the other verbosity level hands the solver the same data
 \cup (IF t.ref_hash = t.oth_hash /\ t.ref_rows = t.oth_rows THEN {} ELSE {<<"solver-input-depends-on-verbosity", "conic-data">>})
 \cup (IF t.ref_val = t.oth_val THEN {} ELSE {<<"result-depends-on-verbosity", "value">>})
+\cup (IF t.ref_out = t.oth_out THEN {} ELSE {<<"result-depends-on-verbosity", "outcome">>})
 TInit == tid \in 1..Len(Traces) /\ bad = Clauses(Traces[tid]) /\ reg = Zero /\ hist = <<>> /\ justReset = FALSE /\ model = 0
 TNext == UNCHANGED <<tid, bad, reg, hist, justReset, model>>
 Report == PrintT(ToJson(<<"V", tid, bad>>))
